@@ -10,7 +10,7 @@ from ..engines.seqsim import World, Violation, ABSENT
 ID = "C11"
 ENGINE = "seqsim"
 LEVEL = "exploration"
-RUNS = {"quick": 24000, "thorough": 300000}
+RUNS = {"quick": 40000, "thorough": 300000}
 CHUNK = 250
 RULE = ("(entry point x target position x invalid item kind x position of the invalid item inside an otherwise valid "
         "argument, depth 0-3) for all 12 JSON classes and the Redis/MongoDB/Zarr stub-store classes, after a seeded "
